@@ -283,7 +283,10 @@ def check(run):
                 orr, ore, _ = (lib.call(auth.verify_root, prev, env) if prev["signed"]["version"] >= 1 else ("accept", None, ""))
                 other = keys.pub[2]
                 tcb = twin_canon(env["signed"])
-                noise = {other: {"signature": keys.sign(2, tcb).hex()}, "junk": "x", keys.pub[3]: {"signature": "zz"},
+                hdr0 = next(iter(env["signatures"].values()))["other_headers"]
+                noise = {other: rr.choice([{"signature": keys.sign(2, tcb).hex()},
+                                           {"other_headers": hdr0, "signature": keys.sign(2, b"stale content").hex()}]),      # authorized, well-formed, but not valid for this payload
+                         "junk": "x", keys.pub[3]: {"signature": "zz"},
                          keys.pub[1]: {"other_headers": "", "signature": "00" * 64}}
                 mixed = {"signatures": {**dict(rr.sample(sorted(noise.items()), rr.randint(1, 4))), **env["signatures"]}, "signed": env["signed"]}
                 om, ome, _ = lib.call(auth.verify_signable, mixed, qs + [other], len(qs), gpg=True)
